@@ -43,7 +43,7 @@ HAS_STARTS = {"stDAG", "stDiGraph", "NodeExpandedDiGraph", "MinFlowDecomp", "kMi
               "MinPathCover", "kFlowDecompCycles", "MinFlowDecompCycles", "kMinPathErrorCycles", "kLeastAbsErrorsCycles",
               "kPathCoverCycles", "MinPathCoverCycles", "MinErrorFlow"}
 
-SOLVER_OPTIONS = {"threads": 1}          # ONE threads value per process
+SOLVER_OPTIONS = {"threads": 1, "time_limit": 4}          # ONE threads value per process; a time-out only turns "solved" into "unsolved"
 
 
 # ------------------------------------------------------------------------------------------ valid inputs
@@ -152,6 +152,41 @@ def gen_valid(rng, cls):
             if rng.random() < 0.5:
                 spec["ends"] = [rng.choice(nodes)]
     return spec
+
+
+def variant_start_only(spec, rng):
+    """valid variant for cyclic non-decomposition classes: no node of in-degree 0, the walks start at an additional start"""
+    if spec["cls"] not in ("stDiGraph", "kMinPathErrorCycles", "kLeastAbsErrorsCycles", "kPathCoverCycles", "MinPathCoverCycles"):
+        return False
+    G = _graph(spec); srcs = [x for x in G if G.in_degree(x) == 0]
+    others = [x for x in G if G.in_degree(x) > 0 and G.out_degree(x) > 0]      # keep the sinks
+    if not others or not srcs or len(spec["edges"]) > 6:
+        return False
+    for s in srcs:
+        spec["edges"].append((rng.choice(others), s, 1))
+    spec["starts"] = list(dict.fromkeys(spec["starts"] + srcs))
+    return True
+
+
+def variant_node_starts(spec, rng):
+    """valid variant: node-weighted MinFlowDecompCycles with an additional start (documented for node mode)"""
+    if spec["cls"] != "MinFlowDecompCycles":
+        return False
+    if spec["origin"] != "node":
+        spec["origin"] = "node"
+        spec["node_w"] = {v: 1 for v in spec["nodes"]}
+        spec["cons"] = []; spec["ign"] = []
+    spec["starts"] = [rng.choice(spec["nodes"])]
+    return True
+
+
+def variant_all_ignored(spec, rng):
+    """outside the property's clause (DESIGN #24): every weighted element is ignored; integer weights"""
+    if spec["cls"] not in HAS_WEIGHTS or spec["cls"] == "MinErrorFlow" or spec["origin"] != "edge":
+        return False
+    spec["wtype"] = "int"; spec["cons"] = []
+    spec["ign"] = [(u, v) for (u, v, w) in spec["edges"]]
+    return True
 
 
 # ------------------------------------------------------------------------------------------ violations
@@ -385,8 +420,34 @@ def exc_kind(e):
     return type(e).__name__
 
 
+INNER = {"MinFlowDecomp": ("flowpaths.kflowdecomp", "kFlowDecomp"), "MinFlowDecompCycles": ("flowpaths.kflowdecompcycles", "kFlowDecompCycles"),
+         "MinPathCover": ("flowpaths.kpathcover", "kPathCover"), "MinPathCoverCycles": ("flowpaths.kpathcovercycles", "kPathCoverCycles")}
+
+
 def observe(spec):
-    """-> dict(ctor=kind|None, solve=kind|None, solved=bool|None, lb_lt_m=bool|None)"""
+    """-> dict(ctor=kind|None, solve=kind|None, solved=bool|None, inner=bool|None)
+    inner: (Min* classes) the k-loop of solve() constructed at least one k-model"""
+    if spec["cls"] in INNER:
+        import importlib
+        mod, name = INNER[spec["cls"]]
+        C = getattr(importlib.import_module(mod), name)
+        orig = C.__init__
+        seen = []
+        def wrapped(self, *a, **kw):
+            seen.append(1)
+            return orig(self, *a, **kw)
+        C.__init__ = wrapped
+        try:
+            res = _observe(spec)
+        finally:
+            C.__init__ = orig
+        if res is not None:
+            res["inner"] = bool(seen)
+        return res
+    return _observe(spec)
+
+
+def _observe(spec):
     res = {"ctor": None, "solve": None, "solved": None}
     try:
         m = construct(spec)
